@@ -93,9 +93,10 @@ Lemma batch_gen : forall fuel m (fs : list mfile) g c xs i,
   (length xs - i + (if is_full (conc c) then 1 else 0) < fuel)%nat ->
   exists m' fs' r, mgr_write_batch fuel m xs i = (m', r) /\ mgr_rep m' fs' /\
     m_limit m' = m_limit m /\ m_pre_ptr m' = m_pre_ptr m /\
-    batch_post (fs ++ [(g, c)]) fs' (c_end c) (skipn i xs) r.
+    batch_post (fs ++ [(g, c)]) fs' (c_end c) (skipn i xs) r /\ floor_pres (fs ++ [(g, c)]) fs'.
 Proof.
   induction fuel as [|fuel IH]; intros m fs g c xs i R Hok Hne Hbnd Hnn Hi Hfuel; [lia|].
+  assert (Hid0 : fs = [] -> g_id g <> 0) by (intros ->; apply (rep_single_id m g c R)).
   pose proof (rp_limit m _ R) as Hlim.
   pose proof (rp_files m _ R) as Hfiles. apply Forall_app in Hfiles. destruct Hfiles as [Hfs Hlast].
   inversion Hlast as [|? ? Hgc _]; subst. destruct Hgc as (W & Hfirst & Hsp & Hle & Hmax & _).
@@ -128,11 +129,17 @@ Proof.
   { apply (rep_set_last m fs g c c' R W' Hf' Hsp'); [lia|exact Hendmax]. }
   assert (Hvfs : files_vis (fs ++ [(g, c')]) = files_vis (fs ++ [(g, c)]) ++ firstn n ys).
   { rewrite !files_vis_app, !files_vis_one. cbn [snd]. rewrite Hvis', app_assoc. reflexivity. }
+  assert (Hflo1 : floor_pres (fs ++ [(g, c)]) (fs ++ [(g, c')])).
+  { intros fl Hfl. eapply floor_ok_last_same; [exact Hfl|reflexivity|exact Hf'|exact Hsp'|exact Hid0]. }
+  assert (Hflo2 : forall lim id term, floor_pres (fs ++ [(g, c)])
+                    ((fs ++ [close_f (g, c') (c_end c')]) ++ [new_file lim id term (c_end c')])).
+  { intros lim id term fl Hfl. apply floor_ok_snoc_fresh. unfold close_f. cbn [fst snd].
+    eapply floor_ok_last_same; [exact Hfl|reflexivity|exact Hf'|exact Hsp'|exact Hid0]. }
   destruct mk.
   - (* Success *)
     assert (Hnall : firstn n ys = ys) by (apply firstn_all2; lia).
     eexists. exists (fs ++ [(g, c')]), WOk. split; [reflexivity|]. split; [exact Hrep'|].
-    split; [reflexivity|]. split; [reflexivity|]. cbn [batch_post]. rewrite Hnall in *.
+    split; [reflexivity|]. split; [reflexivity|]. split; [|exact Hflo1]. cbn [batch_post]. rewrite Hnall in *.
     split; [exact Hix|]. split; [exact Hvfs|]. apply files_first_snoc. exact Hsp'.
   - (* SuccessToEnd: the batch ended exactly on the record that fills the file *)
     assert (Hnall : firstn n ys = ys) by (apply firstn_all2; lia).
@@ -141,7 +148,7 @@ Proof.
     assert (Hlasteq : (i + n =? length xs)%nat = true) by (apply Nat.eqb_eq; lia).
     rewrite Hlasteq.
     eexists. eexists. exists WOk. split; [reflexivity|]. split; [exact R3|].
-    split; [exact Hl3|]. split; [exact Hp3|]. cbn [batch_post]. rewrite Hnall in *.
+    split; [exact Hl3|]. split; [exact Hp3|]. split; [|apply Hflo2]. cbn [batch_post]. rewrite Hnall in *.
     split; [exact Hix|]. split.
     + rewrite files_vis_app, files_vis_one. unfold new_file. cbn [snd]. rewrite vis_fresh, app_nil_r.
       transitivity (files_vis (fs ++ [(g, c')])); [|exact Hvfs].
@@ -159,9 +166,10 @@ Proof.
     { rewrite (fresh_not_full (m_limit m) _ _ _ Hl42).
       destruct (is_full (conc c)) eqn:Ef; [lia|]. specialize (Hprog eq_refl). lia. }
     destruct (IH m3 (fs ++ [close_f (g, c') (c_end c')]) _ _ xs (i + n)%nat R3 Hok Hne Hbnd Hnn ltac:(lia) Hfuel')
-      as (m' & fs' & r & Hwb & R' & Hl' & Hp' & Hpost).
+      as (m' & fs' & r & Hwb & R' & Hl' & Hp' & Hpost & Hflo).
     rewrite Hwb. exists m', fs', r. split; [reflexivity|]. split; [exact R'|].
     split; [cbn [set_actor m_limit] in *; congruence|]. split; [cbn [set_actor m_pre_ptr] in *; congruence|].
+    split; [|intros fl Hfl; apply Hflo; apply (Hflo2 (m_limit m) (g_id g + 1) (l_lterm (conc c')) fl Hfl)].
     rewrite c_end_fresh in Hpost.
     assert (Hsk : skipn (i + n) xs = skipn n ys) by (subst ys; rewrite skipn_skipn'; reflexivity).
     rewrite Hsk in Hpost.
@@ -210,7 +218,7 @@ Proof.
   - (* IndexEqualError *)
     destruct Hmk as [Hnlt Hneq].
     eexists. exists (fs ++ [(g, c')]), WErrIndex. split; [reflexivity|]. split; [exact Hrep'|].
-    split; [reflexivity|]. split; [reflexivity|]. cbn [batch_post].
+    split; [reflexivity|]. split; [reflexivity|]. split; [|exact Hflo1]. cbn [batch_post].
     exists n. split; [exact Hnlt|]. split; [exact Hix|]. split; [exact Hneq|]. split; [exact Hvfs|].
     apply files_first_snoc. exact Hsp'.
 Qed.
@@ -234,13 +242,13 @@ Theorem mgr_write_batch_rep m (fs : list mfile) xs :
             | WErr => False
             end
         end
-    end.
+    end /\ floor_pres fs fs'.
 Proof.
   intros R Hok Hne Hbnd. pose proof (rp_limit m _ R) as Hlim.
   assert (Hl42 : HDR_LEN + 10 < m_limit m) by lia.
   destruct xs as [|x0 xs0].
   - exists m, fs, WOk. cbn [mgr_write_batch]. split; [reflexivity|]. split; [exact R|].
-    split; [reflexivity|]. split; [reflexivity|]. split; reflexivity.
+    split; [reflexivity|]. split; [reflexivity|]. split; [split; reflexivity|]. intros fl Hfl; exact Hfl.
   - set (xs := x0 :: xs0) in *.
     destruct (list_snoc_cases fs) as [->|(fs0 & [g c] & ->)].
     + (* empty manager *)
@@ -252,12 +260,14 @@ Proof.
                      < S fu)%nat).
       { rewrite (fresh_not_full (m_limit m) _ _ _ Hl42). lia. }
       destruct (batch_gen (S fu) m1 [] _ _ xs 0%nat R1 Hok Hne Hbnd ltac:(discriminate) ltac:(lia) Hfu)
-        as (m' & fs' & r & Hwb & R' & Hl' & Hp' & Hpost).
+        as (m' & fs' & r & Hwb & R' & Hl' & Hp' & Hpost & Hflo).
       assert (Heq : mgr_write_batch (S fu) m xs 0 = mgr_write_batch (S fu) m1 xs 0).
       { subst xs. cbn [mgr_write_batch]. rewrite (rp_cur m _ R). cbn [last_id last_opt rev]. rewrite Hsw.
         rewrite (rp_cur m1 _ R1). cbn [app last_id last_opt rev new_file f_id fst]. reflexivity. }
       exists m', fs', r. rewrite Heq. split; [exact Hwb|]. split; [exact R'|].
       split; [congruence|]. split; [congruence|].
+      split; [|intros fl _; apply Hflo; split; [constructor; [unfold new_file, c_fresh; cbn [snd c_first c_split]; lia|constructor]|
+                                              unfold new_file, f_id; cbn [fst new_range g_id]; intros E; discriminate]].
       unfold files_end. cbn [last_opt rev]. rewrite c_end_fresh in Hpost. cbn [skipn app] in Hpost.
       assert (Hv0 : files_vis [new_file (m_limit m) 1 (r_term x0) (r_index x0)] = []).
       { rewrite files_vis_one. cbn [snd new_file]. apply vis_fresh. }
@@ -277,6 +287,6 @@ Proof.
       assert (Hfu : (length xs - 0 + (if is_full (conc c) then 1 else 0) < S (S (length xs)))%nat).
       { destruct (is_full (conc c)); lia. }
       destruct (batch_gen (S (S (length xs))) m fs0 g c xs 0%nat R Hok Hne Hbnd ltac:(discriminate) ltac:(lia) Hfu)
-        as (m' & fs' & r & Hwb & R' & Hl' & Hp' & Hpost).
-      exists m', fs', r. cbn [skipn] in Hpost. auto.
+        as (m' & fs' & r & Hwb & R' & Hl' & Hp' & Hpost & Hflo).
+      exists m', fs', r. cbn [skipn] in Hpost. repeat (split; [assumption|]). exact Hflo.
 Qed.
